@@ -7,6 +7,7 @@ for a in "$@"; do
   echo "== harmless/$a"
   sh tools/run_all.sh quick 2>&1 | sort > seeded/harmless/$a/result.txt
   git -C /repo checkout -- .
+  git checkout -- evidence 2>/dev/null
   rm -f replays/*.json
   cat seeded/harmless/$a/result.txt | cut -c1-200
 done
